@@ -89,6 +89,27 @@ theorem second_transfer_replaces_first (chunk : Nat) (hc : 1 ≤ chunk) (f : Fil
   refine ⟨?_, last_transfer_wins chunk hc f ii b pa pb hdb hpb hs⟩
   rw [uploadOver_absent chunk hc f ii a hda, hpa]; rfl
 
+/-- **Re-running a transfer is harmless**: transferring the same source a second time onto what the first transfer
+left changes nothing (the destination is again exactly the pruned source). -/
+theorem transfer_idempotent (chunk : Nat) (hc : 1 ≤ chunk) (f : Filter) (ii : Bool) (t pt : Tree)
+    (hd : distinctNames t = true) (hp : prune f t = some pt) :
+    uploadOver chunk f ii t none = .ok (some pt) ∧ uploadOver chunk f ii t (some pt) = .ok (some pt) := by
+  refine ⟨?_, last_transfer_wins chunk hc f ii t pt pt hd hp (sameShape_refl pt)⟩
+  rw [uploadOver_absent chunk hc f ii t hd, hp]; rfl
+
+/-- **Round trip**: what an upload (any filter, any chunk size ≥ 1) created, downloaded again without a filter
+(any other chunk size ≥ 1), is that same tree — every name and every byte. -/
+theorem upload_then_download (chunk chunk' : Nat) (hc : 1 ≤ chunk) (hc' : 1 ≤ chunk') (f : Filter) (ii ii' : Bool)
+    (t pt : Tree) (h : upload chunk f ii t = .ok (some pt)) :
+    download chunk' none ii' pt = .ok (some pt) := by
+  rw [transfer_eq_prune chunk hc] at h
+  have hp : prune f t = some pt := by
+    cases hpr : prune f t with
+    | some t' => rw [hpr] at h; simpa [outcome] using h
+    | none => rw [hpr] at h; simp only [outcome] at h; split at h <;> cases h
+  rw [download_is_upload]
+  exact transfer_no_filter_identity chunk' hc' ii' pt (prune_regular f t pt hp)
+
 /-- **A transfer onto ANY destination** (absent, a file, a directory with whatever in it): the result is the
 source pruned by the filter, laid over what was there — files replace files whatever their size or age,
 directories are merged entry by entry, entries only the destination has stay; a regular file where a
@@ -145,6 +166,18 @@ example :
       = .ok (some (.dir (.cons (nm "old") (.file [1]) (.cons (nm "f") (.file [9]) .nil)))) := by
   have h : nm "old" ≠ nm "f" := by decide
   simp [uploadOver, uploadDirOver, passes, Entries.find, Entries.set, copyFile, copyLoop, h]
+
+/-- the round trip and the idempotence on the nested sample (filter `.tmp`, chunk sizes 2 and 5) -/
+example : ∃ pt, upload 2 (rejectSuffix ".tmp") false sample = .ok (some pt) ∧ download 5 none false pt = .ok (some pt)
+    ∧ uploadOver 2 (rejectSuffix ".tmp") false sample (some pt) = .ok (some pt) := by
+  have hp : prune (rejectSuffix ".tmp") sample
+      = some (.dir (.cons (nm "a.txt") (.file [1, 2, 3]) (.cons (nm "empty") (.dir .nil)
+          (.cons (nm "sub") (.dir (.cons (nm "c.txt") (.file []) .nil)) .nil)))) := by decide +kernel
+  have hu : upload 2 (rejectSuffix ".tmp") false sample = .ok (some (.dir (.cons (nm "a.txt") (.file [1, 2, 3])
+      (.cons (nm "empty") (.dir .nil) (.cons (nm "sub") (.dir (.cons (nm "c.txt") (.file []) .nil)) .nil))))) := by
+    rw [transfer_eq_prune 2 (by omega), hp]; rfl
+  exact ⟨_, hu, upload_then_download 2 5 (by omega) (by omega) _ false false _ _ hu,
+    (transfer_idempotent 2 (by omega) _ false sample _ (by decide +kernel) hp).2⟩
 
 /-- sizes around the chunk size, computed by the loop itself (chunk 3: 0, 1, 2, 3, 4, 6, 10 bytes) -/
 example : (List.map (fun n => copyFile 3 (List.range n)) [0, 1, 2, 3, 4, 6, 10])
